@@ -241,8 +241,20 @@ def _one_package(pid, tier, seed):
 def extra_checks(ctx):
     items = []
     results = []
+    def guarded(pid):
+        # binaries of other packages can be replaced under our feet by a concurrent check of that package (build_driver /
+        # build_harness unlink the previous build): retry once, then report the package as not aggregated in this run
+        last = None
+        for attempt in (0, 1):
+            try:
+                return _one_package(pid, ctx.tier, ctx.seed)
+            except Exception as e:  # noqa
+                last = e
+                time.sleep(15)
+        return {"package": pid, "variant": None, "sanitizers": None, "cases": 0, "crash": 0, "disagree": 0,
+                "skipped": f"aggregation failed twice ({type(last).__name__}: {last}); not aggregated in this run", "wall_s": 0, "examples": []}
     with concurrent.futures.ThreadPoolExecutor(max_workers=4) as ex:
-        futs = [ex.submit(_one_package, pid, ctx.tier, ctx.seed) for pid in AGGREGATE]
+        futs = [ex.submit(guarded, pid) for pid in AGGREGATE]
         for f in futs:
             results.append(f.result())
     ctx.evidence = {"aggregated_sanitizer_runs": results,
